@@ -128,6 +128,14 @@ def run_skeletons(chk, F, rule="D2.skeleton"):
                 seqs.append(emitted(p, argmap))
         bad = [s for s in seqs if not any(match(s, sp) for sp in spec)]
         covered = all(any(match(s, sp) for s in seqs) for sp in spec)
+        if not (seqs and not bad and covered):
+            # the writer is not written in the documented shape: that is only a violation if what it emits differs.  Decide by
+            # the exact-field comparison (D3's method) over the whole parameter range instead of the enumerated sample.
+            import rules_ivl
+            okv, text = rules_ivl.fields_all_params(F, "default", code)
+            if okv:
+                chk.ok(rule, code, sample={"code": code, "shape": "differs from the documented skeleton", "decided_by": text})
+                continue
         chk.expect(rule, code, seqs and not bad and covered,
                    "writer of %s (%s) does not emit the documented field sequence: %s" % (code, path, [[(k, [str(a)[:50] for a in args]) for k, args in s] for s in bad][:2] or "a documented case is never produced"),
                    detail={"code": code, "emitted": [[(k, [str(a)[:80] for a in args]) for k, args in s] for s in seqs][:3]},
